@@ -59,6 +59,25 @@ def patched_env(fs, oplog):
             return io.StringIO(fs[s])
         return orig_open(self, mode, *a, **k)
 
+    orig_glob = pathlib.Path.glob
+
+    def fake_glob(self, pattern, *a, **k):
+        # directory listing of the fake file table: every file under `self` whose relative path matches `pattern`
+        # component by component (no "**"); the order is the table's insertion order (a directory listing has no order contract)
+        import fnmatch
+        base = str(self).rstrip("/") + "/"
+        if not base.startswith(VFS):
+            return orig_glob(self, pattern, *a, **k)
+        pat = str(pattern).split("/")
+        found = []
+        for name in fs:
+            if name.startswith(base):
+                rel = name[len(base):].split("/")
+                if len(rel) == len(pat) and all(fnmatch.fnmatchcase(r, q) for r, q in zip(rel, pat)):
+                    found.append(pathlib.Path(name))
+        oplog.append(("glob", base + str(pattern), len(found)))
+        return iter(found)
+
     def fake_open(name, mode="r", *a, **k):
         if "w" in mode:
             return _Writer(fs, str(name), oplog)
@@ -70,11 +89,13 @@ def patched_env(fs, oplog):
     saved_replaces = set(default_registry.replaces)
     saved_argv = sys.argv
     pathlib.Path.open = fake_path_open
+    pathlib.Path.glob = fake_glob
     cli_mod.open = fake_open
     try:
         yield
     finally:
         pathlib.Path.open = orig_open
+        pathlib.Path.glob = orig_glob
         del cli_mod.open
         sys.argv = saved_argv
         default_registry.types[:] = saved_types
